@@ -69,7 +69,7 @@ ParsePort(tbl, maxOperands, toks) ==
            want == CASE op \in {"lt", "gt"} -> 1 [] op = "range" -> 2 [] OTHER -> IF avail < maxOperands THEN avail ELSE maxOperands
            its == [k \in 1..want |-> OperandVal(tbl, toks[k + 1])]
        IN  IF avail < want \/ want = 0 \/ tbl = {} THEN [ok |-> FALSE, n |-> 0, pe |-> NoPort, names |-> <<>>]
-           ELSE IF \E k \in 1..want : its[k] < 1 \/ its[k] > 65535
+           ELSE IF \E k \in 1..want : its[k] > 65535      \* operand 0 is accepted (it denotes no port of 1..PMax: lt 0 = lt 1 = nothing)
                 THEN [ok |-> FALSE, n |-> 0, pe |-> NoPort, names |-> <<>>]
                 ELSE [ok |-> TRUE, n |-> want + 1, pe |-> [op |-> op, items |-> SortNat(its)],
                       names |-> [k \in 1..want |-> IsWord(toks[k + 1])]]
